@@ -1,14 +1,15 @@
 """X03 (extension domain "Media") - the life cycle of images and charts.
 
 Spec: spec/Media.tla (properties P1-P5 in its header).  MC_Media*.cfg: TLC checks InGrid, NamesUnique, RoundTrip,
-SaveAlwaysWorks, RemoveUndoesInsert, ModelRemovalsAllowed, OthersUntouched, RawKept, ReloadIdentity on a 6x5 grid
-with three sheets, three picture files and three charts, and must *refute* two deviant designs (media parts chosen by
-file name only; a save that fails on a dangling chart reference) - these are the findings X03-KF1 / X03-KF2.
+SaveAlwaysWorks, OthersUntouched, RawKept, ReloadIdentity over all histories of depth 2 (thorough: 3) on a 6x5 grid with
+three sheets, three picture files and three charts, RemoveUndoesInsert / ModelRemovalsAllowed on every state of depth 1
+(thorough: 2), and must *refute* two deviant designs (media parts chosen by file name only; a save that fails on a
+dangling chart reference) - these are the findings X03-KF1 / X03-KF2.
 Behaviours of the specification (every depth-1 path over the rich initial workbooks - thorough: + a sample of the
 depth-2 paths -, TLC-simulated histories of 12 operations on a 14x9 grid), generated histories at the real grid
-limits, histories on corpus files (eager and lazy) and one exemplar per open finding are executed by
-harness/src/bin/media.rs; pydec/media_view.py decodes every written package independently; spec/Trace_Media.tla
-judges every step.
+limits over all 13 chart kinds, histories on corpus files (eager and lazy) and one exemplar per open finding are
+executed by harness/src/bin/media.rs; pydec/media_view.py decodes every written package independently;
+spec/Trace_Media.tla judges every step (deviations X03-KF1..KF6, /verif/ext_findings.json).
 """
 import json, os, shutil
 from concurrent.futures import ProcessPoolExecutor
@@ -39,7 +40,8 @@ class Pool:
         spec = {"A": ("a", "logo.png", "sample1.png"), "B": ("b", "logo.png", "sample2.png"),
                 "C": ("c", "pic.png", "sample1.png"), "D": ("d", "sample3.png", "sample3.png"),
                 "E": ("e", "sample4.png", "sample4.png"), "F": ("f", "pic.png", "sample4.png"),
-                "H": ("h", "logo #2.png", "sample4.png"), "W": ("w", "photo.webpic", "sample4.png")}
+                "H": ("h", "logo #2.png", "sample4.png"), "W": ("w", "photo.webpic", "sample4.png"),
+                "I": ("i", "image1.png", "sample3.png")}       # (the name of a media part of most corpus files)
         for tok, (sub, name, src) in spec.items():
             d = os.path.join(tmp, "pool", sub)
             os.makedirs(d, exist_ok=True)
@@ -167,6 +169,7 @@ def corpus_cases(pool, chk, rng):
             need = sorted({names.index(r) + 1 for c in v["sheets"][i - 1]["charts"] for r in c["refs"] if r in names} - {i})
             steps = [src(True)] + [{"a": "ReadSheet", "s": j} for j in need]
             steps.append(pool.step({"a": "AddImage", "s": i, "f": rng.choice("ABDE"), "r": 40, "c": 30}))
+            steps.append(pool.step({"a": "AddImage", "s": i, "f": "I", "r": 41, "c": 31}))
             steps.append({"a": "AddChart", "s": i, "ch": chart_over(names[i - 1])})
             steps.append({"a": "Reload", "lazy": True})
             steps.append({"a": "Reload", "lazy": False})
@@ -190,6 +193,7 @@ def corpus_cases(pool, chk, rng):
                     steps.append({"a": "MoveImage", "s": i, "i": 1, "r": 7, "c": 9})
             if s["charts"]:
                 steps.append({"a": "RemoveChart", "s": i, "i": rng.randint(1, len(s["charts"]))})
+            steps.append(pool.step({"a": "AddImage", "s": len(names) if len(names) != i else 1, "f": "I", "r": 3, "c": 3}))
             others = [j for j in range(1, len(names) + 1) if j != i and names[j - 1] not in refs]
             if others:
                 steps.append({"a": "RemoveSheet", "s": rng.choice(others)})
